@@ -87,6 +87,8 @@ class FluxBinner(Binner):
         spectrum = spectrum[..., sorted_input]
         if error is not None:
             error = error[..., sorted_input]
+        if grid_width is not None and hasattr(grid_width, '__len__'):
+            grid_width = grid_width[sorted_input]
 
         bin_spectrum = np.zeros(spectrum[..., 0].shape + self._wngrid.shape)
 
